@@ -59,6 +59,7 @@ type DocSpec struct {
 
 	TextOps  int  `json:"text_ops"`  // 0 Tj only, 1 TJ arrays, 2 mixed incl. Tm / T* positioning
 	FormXObj bool `json:"form_xobj"` // some lines live in a Form XObject
+	GState   bool `json:"gstate,omitempty"` // the program relies on the graphics state: Tf only when the font changes, lines inside q ... Q change it, what follows Q counts on the restore
 	Running  int  `json:"running,omitempty"` // this many header pieces and footer pieces repeated on every page
 	Bulk     int  `json:"bulk,omitempty"` // this many unreferenced objects: cross-reference data longer than a read buffer
 	Superscripts bool `json:"superscripts,omitempty"` // short raised pieces of text: baselines closer together than half a glyph height
@@ -762,6 +763,9 @@ func (d *docState) makeLines(pageIdx int, r *sim.Rand) (out []Line) {
 			ln.Size = float64(sim.Pick(r, []int{18, 20, 24}))
 			if f := d.fonts[fi]; f.HasSpace() {
 				ln.Text = "Section " + strconv.Itoa(serial)
+				if r.Pct(40) {
+					ln.Text += ", part two" // punctuation that export formats use as a delimiter
+				}
 			}
 		} else if sp.Headings && r.Pct(30) {
 			ln.X = float64(sim.Pick(r, []int{90, 108, 144}))
@@ -809,6 +813,10 @@ func (d *docState) contentFor(lines []Line, r *sim.Rand) []byte {
 	if wrapQ {
 		b.WriteString("q" + nl)
 	}
+	// the text font as the graphics state has it (font index, size); nothing is known at
+	// the start of a program, q saves it and Q brings it back
+	gsCur := [2]float64{-1, 0}
+	var gsStack [][2]float64
 	opened := false
 	for i, l := range lines {
 		f := d.fonts[l.Font]
@@ -823,11 +831,19 @@ func (d *docState) contentFor(lines []Line, r *sim.Rand) []byte {
 			// marked content with an inline property list (a dictionary operand)
 			fmt.Fprintf(&b, "/Span << /MCID %d /Lang (en) >> BDC%s", i, nl)
 		}
+		lineQ := sp.GState && r.Pct(35)
+		if lineQ {
+			b.WriteString("q" + nl)
+			gsStack = append(gsStack, gsCur)
+		}
 		if !opened {
 			b.WriteString("BT" + nl)
 			opened = true
 		}
-		fmt.Fprintf(&b, "/%s %s Tf%s", d.resName(l.Font), num(l.Size), nl)
+		if want := [2]float64{float64(l.Font), l.Size}; !sp.GState || want != gsCur {
+			fmt.Fprintf(&b, "/%s %s Tf%s", d.resName(l.Font), num(l.Size), nl)
+			gsCur = want
+		}
 		switch {
 		case mode == 2:
 			fmt.Fprintf(&b, "1 0 0 1 %s %s Tm%s", num(l.X), num(l.Y), nl)
@@ -863,6 +879,11 @@ func (d *docState) contentFor(lines []Line, r *sim.Rand) []byte {
 		}
 		b.WriteString("ET" + nl)
 		opened = false
+		if lineQ {
+			b.WriteString("Q" + nl)
+			gsCur = gsStack[len(gsStack)-1]
+			gsStack = gsStack[:len(gsStack)-1]
+		}
 		if marked {
 			b.WriteString("EMC" + nl)
 		}
